@@ -13,7 +13,7 @@ def sizes(kind, tier):
     if tier == 'quick':
         return [(1, 1), (2, 2), (3, 2), (4, 3), (8, 2), (dmax, 1)]
     s = [(d, 1) for d in range(1, dmax + 1)]
-    s += [(d, b) for d in range(1, 9) for b in range(2, 5)]
+    s += [(d, b) for d in range(1, 9) for b in range(2, 5) if kind == 'del' or b <= (1 << d)]      # an insertion batch must fit the tree (else circuit and relation are both empty)
     s += [(16, 2), (20, 4), (dmax, 2), (12, 3)]
     return sorted(set(s))
 
